@@ -137,7 +137,7 @@ def run_history(hist: List[list]) -> Dict[str, Any]:
     SymbolGraph().clear()
     SymbolGraph()
     # expression objects per query form (Variable, [Attribute..], descriptor, An; nested: two queries, a comparator, ...)
-    SIZE = {None: 3, "attr": 4, "setof": 5, "nested": 9}
+    SIZE = {None: 3, "attr": 4, "setof": 5, "nested": 9, "nestsel": 5, "nestent": 5}
     expected_exprs = 0
     qkey: Dict[int, Any] = {}                 # query object -> (form, selected expression to read a row with)
 
@@ -154,14 +154,20 @@ def run_history(hist: List[list]) -> Dict[str, Any]:
             inner = an(entity(x))
             w = let(cl[T], None)
             return an(set_of([w, inner], w.uid == inner.uid)), inner
+        if form in ("nestsel", "nestent"):
+            # ... and the nested query itself is only SELECTED, it is in no condition either
+            inner = an(entity(x))
+            return (an(set_of([inner])), inner) if form == "nestsel" else (an(entity(inner)), None)
         return an(entity(x)), None
 
     def rows(form, key, res):
         """rows -> instance numbers (attribute forms return the uid attribute = the harness' number of the instance)"""
         if form is None:
             return number(res)
-        if form == "nested":
+        if form in ("nested", "nestsel"):
             return number([r[key] for r in res])
+        if form == "nestent":
+            return number(res)
         vals = [r if form == "attr" else r[key] for r in res]
         return [(v if isinstance(v, int) and v in wref and wref[v]() is not None else -2) for v in vals]
 
@@ -465,6 +471,11 @@ def run_loop(payload) -> Dict[str, Any]:
             n = len(list(an(entity(let(cl[0], None).uid)).evaluate()))
         elif mode == "eql_domain":
             n = len(list(an(entity(let(cl[0], xs))).evaluate()))
+        elif mode == "eql_literal":
+            # an instance used as a constant in a condition (wrapped into a Literal by the comparison)
+            x_ = let(cl[0], None)
+            n = len(list(an(entity(x_, x_.r0 == xs[0])).evaluate()))
+            del x_
         elif mode == "declare":
             an(entity(let(cl[0], None)))   # declared while the instances exist, dropped without evaluating
             n = -1
@@ -1114,9 +1125,9 @@ def gen_history(rng: core.Rng, profile: str, nmin=4, nmax=16) -> List[list]:
             o = [k, rng.choice(QUERY_TYPES)]
             if k != "QueryG":
                 nq += 1
-                f = rng.next() % 20       # 55% the variable itself, 20% an attribute, 15% a set_of of attributes, 10% nested
-                if f >= 11:
-                    o.append("attr" if f < 15 else ("setof" if f < 18 else "nested"))
+                f = rng.next() % 20       # 50% the variable itself, 15% an attribute, 10% a set_of of attributes, 25% nested forms
+                if f >= 10:
+                    o.append("attr" if f < 13 else ("setof" if f < 15 else ("nested" if f < 17 else ("nestsel" if f < 19 else "nestent"))))
                 qforms.append(o[2] if len(o) > 2 else None)
             hist.append(o)
         elif k == "Eval":
@@ -1124,7 +1135,8 @@ def gen_history(rng: core.Rng, profile: str, nmin=4, nmax=16) -> List[list]:
                 continue
             hist.append(["Eval", rng.next() % nq])
         elif k == "Start":
-            cand = [q for q in range(nq) if qforms[q] != "nested"]   # row-by-row consumption is modelled for one variable
+            # row-by-row consumption is modelled for the forms with ONE domain-less variable and no nested query
+            cand = [q for q in range(nq) if qforms[q] not in ("nested", "nestsel", "nestent")]
             if not cand:
                 continue
             hist.append(["Start", rng.choice(cand)])
